@@ -45,32 +45,32 @@ type C06Event struct {
 
 // C06Plan is one sync scenario.
 type C06Plan struct {
-	Engine      string      `json:"engine"` // legacy | exp
-	HonestLen   int         `json:"honestLen"`
-	Forks       []ForkSpec  `json:"forks"`
-	Nodes       []C06Node   `json:"nodes"`
-	Checkpoints []int       `json:"checkpoints"` // heights on the honest chain, ascending
-	DisableCP   bool        `json:"disableCP"`
-	Initial     string      `json:"initial"` // genesis | prefix | stalefork
-	InitialArg  int         `json:"initialArg"`
-	Events      []C06Event  `json:"events"`
-	ExpInbound  bool        `json:"expInbound"` // experimental engine: a second, inbound peer (node 1 if present)
-	WaitMs      int         `json:"waitMs,omitempty"`
+	Engine      string     `json:"engine"` // legacy | exp
+	HonestLen   int        `json:"honestLen"`
+	Forks       []ForkSpec `json:"forks"`
+	Nodes       []C06Node  `json:"nodes"`
+	Checkpoints []int      `json:"checkpoints"` // heights on the honest chain, ascending
+	DisableCP   bool       `json:"disableCP"`
+	Initial     string     `json:"initial"` // genesis | prefix | stalefork
+	InitialArg  int        `json:"initialArg"`
+	Events      []C06Event `json:"events"`
+	ExpInbound  bool       `json:"expInbound"` // experimental engine: a second, inbound peer (node 1 if present)
+	WaitMs      int        `json:"waitMs,omitempty"`
 }
 
 type scenario struct {
-	p       *C06Plan
-	u       *simnet.Universe
-	honest  []*simnet.Block // final honest chain incl. blocks mined by events
-	forks   [][]*simnet.Block
-	nodes   []*simnet.Node
-	env     *simnet.Env
-	s       *stack.Stack
-	srv     simnet.P2PServer
-	exp     []*exppeer.Peer
-	ln      net.Listener
-	dir     string
-	cps     []chaincfg.Checkpoint
+	p      *C06Plan
+	u      *simnet.Universe
+	honest []*simnet.Block // final honest chain incl. blocks mined by events
+	forks  [][]*simnet.Block
+	nodes  []*simnet.Node
+	env    *simnet.Env
+	s      *stack.Stack
+	srv    simnet.P2PServer
+	exp    []*exppeer.Peer
+	ln     net.Listener
+	dir    string
+	cps    []chaincfg.Checkpoint
 }
 
 var c06Dir string
